@@ -11,6 +11,7 @@
 -/
 import ChumskyModel.Proofs.Lemmas.ErrWf
 import ChumskyModel.Proofs.Lemmas.DescSim
+import ChumskyModel.Proofs.Lemmas.PrattAlt
 set_option linter.unusedSimpArgs false
 namespace Chumsky
 
@@ -104,7 +105,41 @@ example :
       | _ => (none, [])) = (none, [⟨(1, 2), .ef [.tok 98, .tok 99] (some 100), []⟩]) := by
   decide +kernel
 
+/-! ### Pratt parsers (`Model/Pratt.lean`) -/
+
+/-- **C06 for `atom.pratt(ops)`** (atom and operator parsers of the C06 class): the rewinds of `pratt_go` never touch
+    the pending error, so when the parse fails the last reported error is (≈) the summary of ALL failure events —
+    operators that did not match, operators whose operand was missing, the atom — and lies at the furthest of them. -/
+theorem c06_pratt_primary_is_summary (fuel : Nat) (env : Env) (hek : env.ek ≠ .empty)
+    (hdefs : ∀ d ∈ env.defs, d.c06 = true) (m : Mode) (atom : G) (hatom : atom.c06 = true) (ops : List PrattOp)
+    (hops : opsC06 ops = true) (r : ParseResult) (f : St)
+    (h : parseTopPratt fuel env m atom ops = .result r f) (ho : r.output = none) :
+    ∃ l l', f.alt = some l ∧ summ env.ek f.log = some l' ∧ l.equiv l' ∧ r.errs = f.errs.map (·.err) ++ [l.err] ∧
+      (∀ ev ∈ f.log, ev.pos ≤ l.pos) :=
+  parseTopPratt_primary_error fuel env hek hdefs m atom hatom ops hops r f h ho
+
+/-- the same for recursive expression grammars `recursive(|e| atom.pratt(ops))` -/
+theorem c06_recursive_pratt_primary_is_summary (x : XEnv) (n : Nat) (env : Env) (hek : env.ek ≠ .empty)
+    (hdefs : ∀ d ∈ env.defs, d.c06 = true) (hatom : x.atom.c06 = true) (hops : opsC06 x.ops = true) (m : Mode)
+    (r : ParseResult) (f : St) (h : parseTopX x n env m = .result r f) (ho : r.output = none) :
+    ∃ l l', f.alt = some l ∧ summ env.ek f.log = some l' ∧ l.equiv l' ∧ r.errs = f.errs.map (·.err) ++ [l.err] ∧
+      (∀ ev ∈ f.log, ev.pos ≤ l.pos) :=
+  parseTopX_primary_error x n env hek hdefs hatom hops m r f h ho
+
+/-- non-vacuity: `x + ( y *` over `+`/1 left, `*`/2 left with a parenthesised atom: rejected, the report is at the end
+    of the input (position 5), the furthest failure, with the union of what was expected there -/
+example :
+    let x : XEnv := { hole := 0, atom := .or_ (.oneOf [120, 121]) (.delimitedBy (.call 0) (.just [40]) (.just [41])),
+                      ops := [.infix true 1 (.just [43]), .infix true 2 (.just [42])] }
+    x.atom.c06 = true ∧ opsC06 x.ops = true ∧
+    (match parseTopX x 60 { toks := [120, 43, 40, 121, 42] } .emit with
+      | .result r _ => (r.output, r.errs.map (·.span))
+      | _ => (none, [])) = (none, [(5, 5)]) := by
+  decide +kernel
+
 #print axioms c06_pending_is_summary
+#print axioms c06_pratt_primary_is_summary
+#print axioms c06_recursive_pratt_primary_is_summary
 #print axioms c06_reported_is_summary
 #print axioms c06_primary_is_furthest
 #print axioms c06_expected_is_union
